@@ -248,15 +248,18 @@ def judge_subdaily(c, rec):
         rec.note("degenerate-mostly-absent-series")
         rec.case(c, False, cls + ["degenerate"])
         return
+    # baseline and reporting classes share the conservation rules (the class is picked from the case's seed)
+    DCls = em.DailyReportingData if c["vseed"] % 3 == 0 else em.DailyBaselineData
+    cls = cls + ["class=" + DCls.__name__]
     with contextlib.redirect_stdout(io.StringIO()):
         if c["entry"] == "frame":
-            data = em.DailyBaselineData(pd.DataFrame({"observed": m, "temperature": Tv}), is_electricity_data=False)
+            data = DCls(pd.DataFrame({"observed": m, "temperature": Tv}), is_electricity_data=False)
         else:
             full = pd.date_range(days[0].tz_convert("UTC"), days[-1].tz_convert("UTC"), freq="h", inclusive="left").tz_convert(tz)
             feed = pd.Series(50 + 20 * rng.random(len(full)), index=full, name="temperature")
             if c.get("T_utc"):
                 feed = feed.tz_convert("UTC")
-            data = em.DailyBaselineData.from_series(m.rename("observed"), feed, is_electricity_data=False)
+            data = DCls.from_series(m.rename("observed"), feed, is_electricity_data=False)
     o = data.df["observed"] if "observed" in data.df else pd.Series(np.nan, index=data.df.index)  # no valid day at all
     # the frame's rows are the local days of the data, once each, stamped at the start of the day
     lv, fv = m.last_valid_index(), m.first_valid_index()
